@@ -215,6 +215,8 @@ def run(ctx):
                             "norm/clip/scale flags; 8- and 16-bit domains exhaustive; 24/32-bit and floating inputs = boundary dictionary (±1, ±(1-ulp), halves for every width, "
                             "extremes) + seeded random bit patterns; thorough tier repeats everything on the lrint (-U__SSE2__) build. distinct_nontrivial = distinct "
                             "(direction, encoding, caller type, flags, build) streams run")
+    from .. import adpcmenc           # IMA / MS ADPCM write entry points: int -> short keeps the top 16 bits, normalised double -> nearest integer to x * 32767
+    adpcmenc.run(ctx, "C02", 60 if quick else 600)
 
 
 def _crosstype(ctx):
